@@ -38,6 +38,20 @@ theorem insRunOK_take (schema : List FieldDef) (cols : List String) :
     obtain ⟨a, b, c, d⟩ := h buf t' nf' he hi
     exact ⟨a, b, c, insRunOK_take schema cols rest t' _ _ nf' j d⟩
 
+/-- the test of the column names `specInsert` makes passes for a prefix of the rows when it passes for
+the rows -/
+theorem namesTest_take {st : Spec.STable} {cols : List Bytes} {rows : List (List Val)} (j : Nat)
+    (h : ¬ ((!rows.isEmpty && !Spec.namesOK st (cols.map Spec.nameStr)) = true)) :
+    ¬ ((!(rows.take j).isEmpty && !Spec.namesOK st (cols.map Spec.nameStr)) = true) := by
+  intro hc
+  cases hn : Spec.namesOK st (cols.map Spec.nameStr) with
+  | true => rw [hn] at hc; simp at hc
+  | false =>
+    rw [hn] at h
+    cases rows with
+    | nil => simp at hc
+    | cons a l => simp at h
+
 /-- **A prefix of an accepted multi-row INSERT is accepted** by the plain model; its result is the
 database with the corresponding prefix of the new rows appended. -/
 theorem specInsert_take {sdb sdb' : Spec.SDB} {table : Bytes} {cols : List Bytes} {rows : List (List Val)}
@@ -49,6 +63,10 @@ theorem specInsert_take {sdb sdb' : Spec.SDB} {table : Bytes} {cols : List Bytes
   | some st =>
     rw [hf] at h
     simp only [Option.bind_eq_bind, Option.bind_some] at h ⊢
+    split at h
+    · cases h
+    rename_i hcond
+    rw [if_neg (namesTest_take j hcond)]
     cases hm : rows.mapM (Spec.rowOf st cols) with
     | none => rw [hm] at h; cases h
     | some newRows =>
@@ -104,6 +122,7 @@ theorem evalInsert_go_cut (db : Engine.DB) (table : Bytes) (cols : List Bytes) (
       (table, t) ∈ tbls →
       (∀ r ∈ rows, ∀ v ∈ r, ValidVal v) →
       rows.mapM (Spec.rowOf ⟨table, schema, []⟩ cols) = some newRows →
+      (rows = [] ∨ checkColumns schema (colsOf schema (cols.map Engine.bytesToName)) = none) →
       InsRunOK schema (cols.map Engine.bytesToName) t s.hdr.lastKey s.hdr.nextLSN s.hdr.nextFree rows →
       ∃ s' logs,
         Engine.evalInsert.go db table cols s batch n rows =
@@ -116,7 +135,7 @@ theorem evalInsert_go_cut (db : Engine.DB) (table : Bytes) (cols : List Bytes) (
   intro rows
   induction rows with
   | nil =>
-    intro newRows s r pt tbls t sdb batch n h hr hself hf e1 e2 e3 ht _ hrows _
+    intro newRows s r pt tbls t sdb batch n h hr hself hf e1 e2 e3 ht _ hrows _ _
     rw [mapM_nil_some] at hrows
     subst hrows
     refine ⟨s, [], by simp [Engine.evalInsert.go], fun _ => rfl, ?_⟩
@@ -131,9 +150,13 @@ theorem evalInsert_go_cut (db : Engine.DB) (table : Bytes) (cols : List Bytes) (
       exact h
     · rw [setTable_self h.cat.tnames ht]; exact hr
   | cons row rest ih =>
-    intro newRows s r pt tbls t sdb batch n h hr hself hf e1 e2 e3 ht hvalid hrows hrun
+    intro newRows s r pt tbls t sdb batch n h hr hself hf e1 e2 e3 ht hvalid hrows hnames hrun
+    have hnames : checkColumns schema (colsOf schema (cols.map Engine.bytesToName)) = none := by
+      cases hnames with
+      | inl h0 => cases h0
+      | inr h1 => exact h1
     obtain ⟨vs, newRest, hrow, hrest, rfl⟩ := (mapM_cons_some _ _ _ _).mp hrows
-    have hstep := insert_step h table t ht schema hsch cols row vs (hvalid row List.mem_cons_self) hrow
+    have hstep := insert_step h table t ht schema hsch cols row vs (hvalid row List.mem_cons_self) hrow hnames
       (fun buf t' nf' he hi => by
         obtain ⟨a, b, c, _⟩ := hrun buf t' nf' he hi
         exact ⟨a, b, c⟩)
@@ -150,7 +173,7 @@ theorem evalInsert_go_cut (db : Engine.DB) (table : Bytes) (cols : List Bytes) (
     obtain ⟨_, hIt, _, _, _⟩ := h.cat.tree t (Cat.tb_mem ht)
     obtain ⟨s', ptF, logs', r', erun, hc', hrep, hcr', hselfF, hnf', hnfr, hlk', hlkr, hl, hcase⟩ :=
       replay_insert_logs_cut s r pt sch tbls h.cat hr hself e1 e2 e3 table t ht (cols.map Engine.bytesToName) row
-        schema buf hsch hlen0 henc hsz0 t1 nf1 hins hd1 hl1 hbig1 (hf.root ht hIt)
+        schema buf hsch hlen0 hnames henc hsz0 t1 nf1 hins hd1 hl1 hbig1 (hf.root ht hIt)
         (hf.pos _ ht _ (rootOff_mem_offs t _ hIt))
     rw [e1'] at erun
     simp only [SRes.ok.injEq] at erun
@@ -161,7 +184,8 @@ theorem evalInsert_go_cut (db : Engine.DB) (table : Bytes) (cols : List Bytes) (
         (sdb.map (updRows table (fun r => r ++ [⟨some (s.hdr.lastKey + 1), vs⟩]))) := ⟨hc', habs1.tabs⟩
     obtain ⟨sE, logs2, ego, hlen2, hcut⟩ := ih newRest s1 r' ptF (setTable tbls table t1) t1 _
       (batch ++ logs1) (n + 1) habsF hcr' hselfF hf' (by rw [hnfr, hnf']) (by rw [hlkr, hlk']) (by omega)
-      (mem_setTable_self t1 ht) (fun r' hr' => hvalid r' (List.mem_cons_of_mem _ hr')) hrest hrun1
+      (mem_setTable_self t1 ht) (fun r' hr' => hvalid r' (List.mem_cons_of_mem _ hr')) hrest
+      (.inr hnames) hrun1
     -- when no row moves the root
     have hnm : InsNoMove schema (cols.map Engine.bytesToName) t s.hdr.lastKey s.hdr.nextLSN s.hdr.nextFree
         (row :: rest) → logs1.length = 1 ∧
@@ -281,14 +305,23 @@ theorem evalInsert_cut (db : Engine.DB) (r : Store) (pt sch : Levels) (tbls : Li
   rw [hsch] at hsch'
   simp only [Option.some.injEq] at hsch'
   subst hsch'
+  have hnames : rows = [] ∨ checkColumns schema (colsOf schema (cols.map Engine.bytesToName)) = none := by
+    cases rows with
+    | nil => exact .inl rfl
+    | cons r rest =>
+      exact .inr (checkColumns_of_namesOK (absTable table schema t) cols (h.tabs.names_nodup ht hsch)
+        (specInsert_namesOK hfind hspec))
   unfold Spec.specInsert at hspec
   rw [hfind] at hspec
   simp only [Option.bind_eq_bind, Option.bind_some] at hspec
+  split at hspec
+  · cases hspec
+  rename_i hcond
   cases hm : rows.mapM (Spec.rowOf (absTable table schema t) cols) with
   | none => rw [hm] at hspec; cases hspec
   | some newRows =>
     obtain ⟨sC, logs, ego, hlenC, hcut⟩ := evalInsert_go_cut db table cols sch schema hsch rows newRows db.store r
-      pt tbls t sdb [] 0 h hr hself hf e1 e2 e3 ht hvalid hm hrun
+      pt tbls t sdb [] 0 h hr hself hf e1 e2 e3 ht hvalid hm hnames hrun
     refine ⟨{ store := sC, wal := db.wal ++ ([] ++ logs) }, logs, ?_, by simp only [List.nil_append], hlenC, ?_⟩
     · unfold Engine.evalInsert
       rw [ego, Nat.zero_add]
@@ -307,7 +340,7 @@ theorem evalInsert_cut (db : Engine.DB) (r : Store) (pt sch : Levels) (tbls : Li
     · unfold Spec.specInsert
       rw [hfind]
       simp only [Option.bind_eq_bind, Option.bind_some]
-      rw [mapM_take _ rows newRows j hm]
+      rw [if_neg (namesTest_take j hcond), mapM_take _ rows newRows j hm]
       rfl
     · exact valsOf_updRows table (fun r => r ++ idRows db.store.hdr.lastKey (newRows.take j))
         (fun r => r ++ (newRows.take j).map fun v => ⟨none, v⟩) sdb (fun rs => by
